@@ -2069,7 +2069,15 @@ impl<F: VfsFile> BPlusTree<F> {
 
 		// Proceed with redistribution
 		let new_separator = left_node.redistribute_to_right(right_node);
+		// The parent owns the overflow chain of its separator keys: the old
+		// separator's chain goes, the new one gets its own when the parent is
+		// written.
+		let old_separator_overflow = parent.key_overflows.get(left_idx).copied().unwrap_or(0);
 		parent.keys[left_idx] = new_separator;
+		parent.set_overflow_at(left_idx, 0);
+		if old_separator_overflow != 0 {
+			self.free_overflow_chain(old_separator_overflow)?;
+		}
 
 		self.write_node_owned(NodeType::Leaf(left_node.clone()))?;
 		self.write_node_owned(NodeType::Leaf(right_node.clone()))?;
@@ -2133,7 +2141,13 @@ impl<F: VfsFile> BPlusTree<F> {
 
 		// Proceed with redistribution
 		let new_separator = left_node.take_from_right(right_node);
+		// See redistribute_leaf_from_left: replace the separator's overflow chain too.
+		let old_separator_overflow = parent.key_overflows.get(left_idx).copied().unwrap_or(0);
 		parent.keys[left_idx] = new_separator;
+		parent.set_overflow_at(left_idx, 0);
+		if old_separator_overflow != 0 {
+			self.free_overflow_chain(old_separator_overflow)?;
+		}
 
 		self.write_node_owned(NodeType::Leaf(left_node.clone()))?;
 		self.write_node_owned(NodeType::Leaf(right_node.clone()))?;
